@@ -33,11 +33,16 @@ def check_database(ctx, path, tables, case):
     return rows
 
 
+# boundary shapes every run must contain: exactly 60 fragmented bytes on a page (20 x 3), just below, a wide table
+FORCE = {"fragmenter": lambda i: [(20, 3), None, (19, 3), None, (21, 3), None, (40, 2), None][i % 8],
+         "wide_table": lambda i: [0, 0, 0, 300, 0, 0, 0, 150][i % 8]}
+
+
 def run(ctx, n_quick=48, n_thorough=600):
     sc = C.Scratch()
     try:
         rows_checked = 0
-        for b in C.build_databases(ctx, sc, C.n_databases(ctx, n_quick, n_thorough)):
+        for b in C.build_databases(ctx, sc, C.n_databases(ctx, n_quick, n_thorough), force=FORCE):
             rows_checked += check_database(ctx, b.path, b.tables, {"cfg": b.cfg, "seed": ctx.seed})
         ctx.extra["rows_compared_with_sqlite"] = rows_checked
     finally:
